@@ -24,6 +24,15 @@ func docsEqual(a, b bsonkit.Doc) bool {
 	return bytes.Equal(aBytes, bBytes)
 }
 
+// sameID reports whether two _id values are identical: of the same BSON type
+// and equal. Interface equality cannot be used as document, array and binary
+// values are not comparable in Go (and NaN never equals itself).
+func sameID(a, b interface{}) bool {
+	_, ta := bsonkit.Inspect(a)
+	_, tb := bsonkit.Inspect(b)
+	return ta == tb && bsonkit.Compare(a, b) == 0
+}
+
 // Result is returned by collection operations.
 type Result struct {
 	// The list of found or deleted documents.
@@ -178,7 +187,7 @@ func (c *Collection) Replace(query, repl, sort bsonkit.Doc) (*Result, error) {
 		if err != nil {
 			return nil, err
 		}
-	} else if replID != bsonkit.Get(list[0], "_id") {
+	} else if !sameID(replID, bsonkit.Get(list[0], "_id")) {
 		return nil, fmt.Errorf("document _id is immutable")
 	}
 
@@ -273,7 +282,7 @@ func (c *Collection) Update(query, update, sort bsonkit.Doc, skip, limit int, ar
 
 	// check ids
 	for i, doc := range newList {
-		if bsonkit.Get(doc, "_id") != bsonkit.Get(list[i], "_id") {
+		if !sameID(bsonkit.Get(doc, "_id"), bsonkit.Get(list[i], "_id")) {
 			return nil, fmt.Errorf("document _id is immutable")
 		}
 	}
